@@ -26,6 +26,7 @@ func (w *World) VerifyFunc(c *Contract, prop string) (*Unit, error) {
 	heap := u.newHeap(&Link{kind: "entry"})
 	u.scalar("$top", "Int")
 	top0 := u.hget(heap, "$top")
+	u.top0 = top0
 	for _, p := range fn.Params {
 		x := u.fresh("param."+p.Name(), u.D.SortOf(p.Type()))
 		f.vals[p] = Val{T: x, Typ: p.Type()}
